@@ -18,7 +18,7 @@ def warm(fs):
     cmd = ["cargo", "kani", "--target-dir", K.target_dir(fs), "--only-codegen", "--exact", "--harness", "smoke::smoke_pass"]
     if K.FEATURE_SETS[fs]:
         cmd += ["--features", ",".join(K.FEATURE_SETS[fs])]
-    rc, out, wall = run(cmd, cwd=K.KANI_CRATE, timeout=1800)
+    rc, out, wall = run(cmd, cwd=K.KANI_CRATE, timeout=1800, extra_env=K.HOOK_ENV)
     return fs, rc, wall, out[-500:] if rc else ""
 sets = ["D", "C", "P", "R", "F", "RF", "CRF", "S"]
 with cf.ThreadPoolExecutor(4) as ex:
